@@ -7,10 +7,12 @@ package c14
 import (
 	"context"
 	"encoding/json"
+	"errors"
 	"fmt"
 	"io"
 	"sort"
 	"strings"
+	"sync"
 	"testing"
 	"time"
 
@@ -29,7 +31,14 @@ import (
 
 // ---- authorizer driven by a decision function
 
-type authz struct{ deny map[string]bool }
+type authz struct {
+	deny map[string]bool
+	// errOnce: the FIRST post-fetch decision about a denied coordinate fails hard
+	// (the policy service is briefly unavailable); later ones deny
+	errOnce bool
+	mu      sync.Mutex
+	erred   map[string]bool
+}
 
 func (a *authz) decide(c resolve.GraphCoordinate) *resolve.AuthorizationDeny {
 	if a.deny[c.TypeName+"."+c.FieldName] {
@@ -41,6 +50,18 @@ func (a *authz) AuthorizePreFetch(ctx *resolve.Context, ds string, in json.RawMe
 	return a.decide(c), nil
 }
 func (a *authz) AuthorizeObjectField(ctx *resolve.Context, ds string, obj json.RawMessage, c resolve.GraphCoordinate) (*resolve.AuthorizationDeny, error) {
+	if k := c.TypeName + "." + c.FieldName; a.errOnce && a.deny[k] {
+		a.mu.Lock()
+		first := !a.erred[k]
+		if a.erred == nil {
+			a.erred = map[string]bool{}
+		}
+		a.erred[k] = true
+		a.mu.Unlock()
+		if first {
+			return nil, errors.New("policy service unavailable")
+		}
+	}
 	return a.decide(c), nil
 }
 func (a *authz) HasResponseExtensionData(ctx *resolve.Context) bool              { return false }
@@ -277,15 +298,27 @@ func authOptions(a *authz, mode string) []engine.ExecutionOptions {
 	return []engine.ExecutionOptions{engine.WithAuthorizer(a), engine.WithPreFetchFieldAuthorizer(a)}
 }
 
+// curatedDefer: operations that select one protected coordinate in two deferred
+// fragments (siblings, and one nested in the other).
+var curatedDefer = map[string][]string{
+	"S-core": {
+		`{ me { id ... @defer { nick } } user(id: "u3") { id ... @defer { nick } } }`,
+		`{ me { id ... @defer { name } } users { id ... @defer { name } } }`,
+		`{ me { id ... @defer { name friends { id ... @defer { name } } } } }`,
+		`{ me { id ... @defer { reviews { body } } } users { id ... @defer { reviews { body } } } }`,
+		`{ topProducts { upc ... @defer { title } } me { favorite { upc ... @defer { title } } } }`,
+	},
+}
+
 // judgeDefer: the incremental delivery transport. Whatever the frames look like,
 // none of them may carry a value of a denied coordinate.
-func judgeDefer(lab *fedlab.Lab, q string, deny map[string]bool, mode string, sentinels map[string][]string) []fail {
-	a := &authz{deny: deny}
+func judgeDefer(lab *fedlab.Lab, q string, deny map[string]bool, mode string, sentinels map[string][]string, errOnce bool) []fail {
+	a := &authz{deny: deny, errOnce: errOnce}
 	ctx, cancel := context.WithTimeout(context.Background(), 30*time.Second)
 	defer cancel()
 	w, _, err := lab.ExecStream(ctx, q, "", nil, authOptions(a, mode)...)
 	var fails []fail
-	if err != nil {
+	if err != nil && !errOnce {
 		return []fail{{"a response is returned", "Execute returned an error (deferred operation)", q + ": " + err.Error()}}
 	}
 	all := strings.Join(w.Frames, "\n") + strings.Join(w.Errors, "\n")
@@ -635,6 +668,7 @@ func TestCheck(t *testing.T) {
 				if err != nil {
 					t.Fatalf("lab: %v", err)
 				}
+				curatedRan := false
 				for _, op := range f.ops {
 					q := op.String()
 					if rin != nil && rin.Op != q {
@@ -674,7 +708,28 @@ func TestCheck(t *testing.T) {
 								for _, dv := range fedlab.DeferVariants(op, 1) {
 									run.Eval(1)
 									run.Count("defer_variants", 1)
-									fails = append(fails, judgeDefer(lab, dv.String(), deny, mode, sent)...)
+									fails = append(fails, judgeDefer(lab, dv.String(), deny, mode, sent, false)...)
+								}
+							}
+							// the same protected coordinate in TWO deferred fragments, the first
+							// post-fetch decision about it failing hard
+							if len(pset) == 1 && mask == 1 && mode == "post" && rin == nil && !curatedRan {
+								curatedRan = true
+								for _, dq := range curatedDefer[f.name] {
+									hit := false
+									for c := range deny {
+										if strings.Contains(dq, strings.SplitN(c, ".", 2)[1]) {
+											hit = true
+										}
+									}
+									if !hit {
+										continue
+									}
+									for _, eo := range []bool{false, true} {
+										run.Eval(1)
+										run.Count("curated_defer_cases", 1)
+										fails = append(fails, judgeDefer(lab, dq, deny, mode, sent, eo)...)
+									}
 								}
 							}
 							if rin != nil {
